@@ -354,7 +354,7 @@ def place(cx):
             if len(args) != 2:
                 continue
             ts = canon(args[0], rd, rd.stmt_of(c), [])
-            ok = ts == "%s.time_step" % lv
+            ok = ts == "%s.time_step" % lv or (isinstance(args[0], ast.Attribute) and args[0].attr == "time_step" and _same_state(rd, args[0].value, rd.stmt_of(c), lv))
             res.check("OCC-PLACE", "occupancy is stamped with its state's time step", ok, fk.mod, c, "Occupancy(%s, ..)" % ts, "the occupancy computed for one state carries another time step", qualname=fk.name)
             # the region derives from the same loop element
             region_defs = rd.defs(args[1].id, c) if isinstance(args[1], ast.Name) else []
@@ -384,14 +384,20 @@ def place(cx):
         res.check("OCC-PLACE", "%s.occupancy_at_time = Occupancy(t, %s)" % (cname, slot), ok, fk.mod, rets[0] if rets else fk.fn, norm(rets[0]) if rets else "?", "the occupancy of a static object depends on something else than its placed shape", qualname=fk.name)
 
 
-def _same_state(rd, arg, at, loopvar):
-    """arg denotes the loop element or a shallow copy of it that only gained a derived heading"""
-    if norm(arg) != loopvar:
+def _same_state(rd, arg, at, loopvar, depth=0):
+    """arg denotes the loop element, an alias of it, or a shallow/deep copy of it (that may have gained a derived
+    heading)"""
+    if not isinstance(arg, ast.Name) or depth > 4:
         return False
-    for d in rd.defs(loopvar, at):
-        if d.kind == "for":
+    ds = list(rd.defs(arg.id, at))
+    if not ds:
+        return False
+    for d in ds:
+        if d.kind == "for" and arg.id == loopvar:
             continue
-        if d.kind == "assign" and isinstance(d.node, ast.Call) and call_name(d.node) in ("copy.copy", "copy.deepcopy") and norm(d.node.args[0]) == loopvar:
+        if d.kind == "assign" and isinstance(d.node, ast.Name) and _same_state(rd, d.node, d.stmt, loopvar, depth + 1):
+            continue
+        if d.kind == "assign" and isinstance(d.node, ast.Call) and call_name(d.node) in ("copy.copy", "copy.deepcopy", "copy", "deepcopy") and d.node.args and isinstance(d.node.args[0], ast.Name) and (d.node.args[0].id == arg.id and arg.id == loopvar or _same_state(rd, d.node.args[0], d.stmt, loopvar, depth + 1)):
             continue
         return False
     return True
